@@ -183,11 +183,60 @@ def g_sext(d, I, canonical):
 
 
 def g_ores(o, I):
+    """a document, or `ORaised` for ANY exception: the class is recorded in the observation (evidence, replay
+    files, `signature`) but never compared -- inside the property's domain raising is the failure whatever the
+    class, outside of it the class is unspecified"""
     if o[0] == "ok":
         return gapp("OOk", g_sext(o[1], I, True))
-    if o[0] in ("NoParentExtension", "AssertionError", "ValueError"):
-        return gapp("OErr", o[0])
-    return "OOther"
+    return "ORaised"
+
+
+def doc_in_domain(d):
+    """Python twin of C10Run.doc_wf, for the statistics and the drift diagnostic only (the verdict uses the Coq
+    definition): the document looks like the serialisation of an extension."""
+    n = d["name"]
+    if len(set(d["runtime_reqs"])) != len(d["runtime_reqs"]):
+        return False
+    for f in ("types", "values", "operations"):
+        for k, x in d[f].items():
+            if k != x["name"] or x["extension"] != n:
+                return False
+    for o in d["operations"].values():
+        if not isinstance(o.get("misc"), dict):
+            return False
+        sig = o.get("signature")
+        if sig is None:
+            if not o.get("binary", False):
+                return False
+        else:
+            rs = sig["body"].get("runtime_reqs", [])
+            if n not in rs or len(set(rs)) != len(rs):
+                return False
+    return True
+
+
+def pinned_outcomes(d):
+    """what Extension.from_json did with a document at the pinned commit: the exception classes it could raise
+    (diagnostic 'model drift' only)"""
+    exp = set()
+    if any(k != x["name"] for f in ("types", "values", "operations") for k, x in d[f].items()):
+        exp.add("AssertionError")
+    if any(o.get("signature") is None and not o.get("binary", False) for o in d["operations"].values()):
+        exp.add("ValueError")
+    return exp or {"ok"}
+
+
+def distinct_objs(objs):
+    """definition objects of a world get distinct (kind, name) slots: which of two DIFFERENT definitions added
+    to one extension under one name is held afterwards is the business of add_*, on which the property is silent"""
+    used, out = set(), []
+    for c in objs:
+        nm = c["name"]
+        if (c["c"], nm) in used:
+            nm = next((x for x in DEF_NAMES if (c["c"], x) not in used), None) or "%s_%d" % (nm, len(out))
+        used.add((c["c"], nm))
+        out.append({**c, "name": nm})
+    return out
 
 
 def g_owners(ow, I):
@@ -502,6 +551,7 @@ def rand_doc(rng, edge):
     """A serial document written directly (not through hugr-py).  edge = probability of each oddity:
     foreign owner field, key != name, neither signature nor binary, absent/null misc, missing defaults."""
     name = rng.choice(EXT_NAMES)
+    wf = edge == 0.0        # the serialisation of some extension (up to pydantic defaults): inside the domain
     own = lambda: rng.choice(EXT_NAMES) if rng.random() < edge else name
     key = lambda n: rng.choice(DEF_NAMES) if rng.random() < edge / 3 else n
     types, values, ops = {}, {}, {}
@@ -522,6 +572,9 @@ def rand_doc(rng, edge):
                 reqs = reqs + [name]
             elif q < 0.5:
                 reqs = reqs + reqs[:1] + [name, name]
+            if wf:
+                reqs = list(dict.fromkeys(reqs + [name]))
+                rng.shuffle(reqs)
             body = {"input": [rng.choice(RAW_TYPES) for _ in range(rng.randint(0, 3))],
                     "output": [rng.choice(RAW_TYPES) for _ in range(rng.randint(0, 2))], "runtime_reqs": reqs}
             if rng.random() < 0.5:
@@ -541,11 +594,13 @@ def rand_doc(rng, edge):
             o["misc"] = {"k" + str(i): rand_json(rng) for i in range(rng.randint(0, 2))}
         elif m < 0.45:
             o["misc"] = None
+        if wf and not isinstance(o.get("misc"), dict):
+            o["misc"] = {}
         if rng.random() < 0.3:
             o["lower_funcs"] = []
         ops[key(n)] = o
     reqs = rng.sample(EXT_NAMES, rng.randint(0, 3))
-    if rng.random() < 0.2:
+    if rng.random() < 0.2 and not wf:
         reqs = reqs + reqs[:1]
     v = [rng.choice([0, 1, 3]), rng.choice([0, 1, 10]), rng.choice([0, 2]), rng.choice(PRE), rng.choice(BUILD)]
     vs = "%d.%d.%d" % tuple(v[:3]) + ("-" + v[3] if v[3] else "") + ("+" + v[4] if v[4] else "")
@@ -558,6 +613,7 @@ def rand_shared(rng):
     exts = [{"name": n, "version": [0, rng.randint(0, 3), 0, None, None], "reqs": rng.sample(EXT_NAMES, rng.randint(0, 2))} for n in names]
     pool = rand_hist(rng, big=True)["cmds"]
     objs = pool[: rng.randint(1, 4)] or [{"c": "op", "name": "op", "descr": "", "misc": {}, "binary": True, "sig": None, "func": False}]
+    objs = distinct_objs(objs)
     prog = [[rng.randrange(len(exts)), rng.randrange(len(objs))] for _ in range(rng.randint(1, 8))]
     return {"kind": "shared", "exts": exts, "objs": objs, "prog": prog}
 
@@ -581,6 +637,7 @@ def rand_world(rng):
     if not any(o["c"] == "op" for o in objs):
         objs.append({"c": "op", "name": rng.choice(DEF_NAMES), "descr": rand_descr(rng), "misc": {}, "binary": rng.random() < 0.3, "func": True,
                      "sig": {"params": [], "in": [rand_type(rng)], "out": [], "reqs": rng.sample(EXT_NAMES, rng.randint(0, 2))}})
+    objs = distinct_objs(objs)
     prog = []
     if rng.random() < 0.35:
         # every object to every Extension object first: the Extension objects then hold equal contents (and, with
@@ -614,6 +671,18 @@ def subst_json(x, args):
     return x
 
 
+def norm_sums(x):
+    """one spelling for sum types in serial form: a general sum whose rows are all empty IS the unit sum of that
+    size (tys.Bool / tys.UnitSum(n) vs tys.Sum([[], []])): sugar and general spelling denote the same type"""
+    if isinstance(x, list):
+        return [norm_sums(y) for y in x]
+    if isinstance(x, dict):
+        if x.get("t") == "Sum" and x.get("s") == "General" and isinstance(x.get("rows"), list) and all(r == [] for r in x["rows"]):
+            return {"t": "Sum", "s": "Unit", "size": len(x["rows"])}
+        return {k: norm_sums(v) for k, v in x.items()}
+    return x
+
+
 def helper_sig_mismatch(o):
     """None, or what differs between the helper's cached signature and its definition's signature at its args"""
     try:
@@ -624,8 +693,8 @@ def helper_sig_mismatch(o):
         args = [a._to_serial_root().model_dump(mode="json") for a in o.type_args()]
         if len(args) != len(pf.params):
             return {"what": "number of type arguments", "args": len(args), "params": len(pf.params)}
-        want = subst_json(pf.body._to_serial().model_dump(mode="json"), args)
-        got = cs._to_serial().model_dump(mode="json")
+        want = norm_sums(subst_json(pf.body._to_serial().model_dump(mode="json"), args))
+        got = norm_sums(cs._to_serial().model_dump(mode="json"))
         if "\"t\": \"R\"" in json.dumps(want):          # row variables: substitution changes arity, not handled here
             return None
         for k in ("input", "output"):
@@ -700,7 +769,7 @@ def helper_rows(I, notes):
             lab = "%s(%s)" % (label, ", ".join(str(a) for a in args))
             try:
                 obj = cls(*args)
-            except (ValueError, AssertionError):
+            except Exception:  # noqa: BLE001  (a sample outside the constructor's domain: any class of refusal)
                 continue
             use(lab, obj)
             done += 1
@@ -772,8 +841,11 @@ class C10(fw.Prop):
             "operations; requirement lists with duplicates and with the owner already present; misc dictionaries "
             "with nested JSON; non-ASCII names/descriptions; prerelease/build versions; constants incl. "
             "int/float/string/list payloads), serialised with to_json, loaded with from_json, serialised again; "
-            "documents written directly at the serial level (foreign owner fields, key != name, neither signature "
-            "nor binary, null/absent misc, absent defaults, duplicate requirements); every file under "
+            "documents written directly at the serial level: 40% look like the serialisation of an extension "
+            "(C10Run.doc_wf; pydantic defaults omitted at random) and are judged strictly, the others (foreign owner "
+            "fields, key != name, neither signature nor binary, null/absent misc, repeated/missing requirements) are "
+            "outside the property's domain: refusal with any exception or acceptance, an accepted result must be a "
+            "fixed point; every file under "
             "specification/std_extensions loaded through hugr.std._load_extension; worlds of 2-4 Extension OBJECTS "
             "whose names mostly coincide (different versions, or wholly equal headers) and 1-4 definition objects "
             "added to them in random or every-object-to-every-extension patterns, observed per Extension object: "
@@ -787,6 +859,10 @@ class C10(fw.Prop):
         "pydantic model_dump_json / model_validate_json and semver parsing are inside the observed implementation, "
         "not the model; Python sets are modelled by sorted duplicate-free lists and observed sets are sorted "
         "(not deduplicated) before comparison",
+        "exception classes are never compared; JSON objects (the three dictionaries, misc) compare as unordered maps; "
+        "requirement lists compare as sets against the model and as multisets between two documents of the "
+        "implementation; which of several definitions added under one name is held is taken from the implementation "
+        "(oracle, admissible if it is one of them)",
         "histories/documents: value semantics; shared definition objects: a value-semantic world (owners by name) and a "
         "heap world with object identity (owners by index), each compared with the implementation per case; attribute "
         "assignment after adding (e.version = ..., renaming an extension or a definition) is outside both (design.d/C10.md)",
@@ -932,10 +1008,50 @@ class C10(fw.Prop):
         return e.add_type_def(o) if c["c"] == "type" else e.add_op_def(o) if c["c"] == "op" else e.add_extension_value(o)
 
     def _build(self, case):
-        e = self._new_ext(case)
-        for c in case["cmds"]:
-            self._add(e, c, self._new_obj(c))
-        return e
+        """-> (extension, indices of the commands that were run).  Adding a definition under a name the
+        extension already holds is outside what the property constrains: if the implementation REFUSES such a
+        call (any exception), the history is rebuilt without that command -- the refused call's effect is
+        unspecified, so nothing after it could be judged otherwise.  Any other exception propagates."""
+        cmds = case["cmds"]
+        kept = list(range(len(cmds)))
+        while True:
+            e, seen, bad = self._new_ext(case), set(), None
+            for i in kept:
+                c = cmds[i]
+                o = self._new_obj(c)
+                try:
+                    self._add(e, c, o)
+                except Exception:  # noqa: BLE001
+                    if (c["c"], c["name"]) not in seen:
+                        raise
+                    bad = i
+                    break
+                seen.add((c["c"], c["name"]))
+            if bad is None:
+                return e, kept
+            kept.remove(bad)
+
+    def _run_world(self, case):
+        """-> (Extension objects, effective program): as `_build`, a step that adds to an Extension object a
+        definition under a name it already holds and is REFUSED is left out (and the world rebuilt)."""
+        prog = [list(x) for x in case["prog"]]
+        while True:
+            exts = [self._new_ext(h) for h in case["exts"]]
+            objs = [self._new_obj(c) for c in case["objs"]]
+            seen, bad = set(), None
+            for t, (i, j) in enumerate(prog):
+                c = case["objs"][j]
+                try:
+                    self._add(exts[i], c, objs[j])
+                except Exception:  # noqa: BLE001
+                    if (i, c["c"], c["name"]) not in seen:
+                        raise
+                    bad = t
+                    break
+                seen.add((i, c["c"], c["name"]))
+            if bad is None:
+                return exts, prog
+            del prog[bad]
 
     @staticmethod
     def _owners(e):
@@ -959,7 +1075,7 @@ class C10(fw.Prop):
     def observe(self, case, ctx):
         from hugr.ext import Extension
         if case["kind"] == "hist":
-            e = self._build(case)
+            e, kept = self._build(case)
             before = self._guard(lambda: json.loads(e.to_json()))
             own1 = self._owners(e)
             after, own2, api2 = before, [], None     # an error propagates
@@ -975,12 +1091,9 @@ class C10(fw.Prop):
                     own2 = self._owners(e2)
                     v = e2.version
                     api2 = [e2.name, [v.major, v.minor, v.patch, v.prerelease, v.build], sorted(e2.runtime_reqs)]
-            return {"before": before, "after": after, "own1": own1, "own2": own2, "api2": api2}
+            return {"before": before, "after": after, "own1": own1, "own2": own2, "api2": api2, "kept": kept}
         if case["kind"] == "shared":
-            exts = [self._new_ext(h) for h in case["exts"]]
-            objs = [self._new_obj(c) for c in case["objs"]]
-            for i, j in case["prog"]:
-                self._add(exts[i], case["objs"][j], objs[j])
+            exts, prog = self._run_world(case)
             out = []
             for e in exts:
                 before = self._guard(lambda: json.loads(e.to_json()))
@@ -988,12 +1101,9 @@ class C10(fw.Prop):
                 if before[0] == "ok":
                     after = self._guard(lambda: json.loads(Extension.from_json(e.to_json()).to_json()))
                 out.append({"before": before, "after": after, "own": self._owners(e)})
-            return {"exts": out}
+            return {"exts": out, "prog": prog}
         if case["kind"] == "world":
-            exts = [self._new_ext(h) for h in case["exts"]]
-            objs = [self._new_obj(c) for c in case["objs"]]
-            for i, j in case["prog"]:
-                self._add(exts[i], case["objs"][j], objs[j])
+            exts, prog = self._run_world(case)
             out = []
             for e in exts:
                 before = self._guard(lambda: json.loads(e.to_json()))
@@ -1010,7 +1120,7 @@ class C10(fw.Prop):
                     pf = od.signature.poly_func
                     held.append([k, idx, None if pf is None else list(pf.body.runtime_reqs)])
                 out.append({"before": before, "after": after, "held": held})
-            return {"exts": out}
+            return {"exts": out, "prog": prog}
         # document
         box = {}
 
@@ -1026,7 +1136,16 @@ class C10(fw.Prop):
         r2 = r1                                      # an error propagates
         if r1[0] == "ok":
             r2 = self._guard(lambda: json.loads(Extension.from_json(json.dumps(r1[1])).to_json()))
-        return {"r1": r1, "r2": r2, "own1": own1}
+        dom = bool(case.get("std")) or doc_in_domain(case["doc"])
+        if not dom and r1[0] not in pinned_outcomes(case["doc"]):
+            # DIAGNOSTIC, never a verdict: on a document outside the property's domain the implementation no
+            # longer does what it did at the pinned commit (which the model still mirrors)
+            drift = ctx.stats.setdefault("model_drift", [])
+            ctx.stats["model_drift_count"] = ctx.stats.get("model_drift_count", 0) + 1
+            if len(drift) < 5:
+                drift.append({"document_outside_domain": case["doc"], "outcome_at_pinned_commit": sorted(pinned_outcomes(case["doc"])),
+                              "outcome_now": r1[0]})
+        return {"r1": r1, "r2": r2, "own1": own1, "in_domain": dom}
 
     # ---------------- literals
     @staticmethod
@@ -1050,7 +1169,7 @@ class C10(fw.Prop):
         I = fw.Interner()
         if case["kind"] == "hist":
             I(case["name"])
-            cmds = [self._g_cmd(c, I) for c in case["cmds"]]
+            cmds = [self._g_cmd(case["cmds"][i], I) for i in obs.get("kept", range(len(case["cmds"])))]
             a = obs["api2"]
             api2 = None if a is None else gpair(gpair(gN(I(a[0])), g_version(a[1], I)), g_names_sorted(a[2], I))
             return gapp("CHist", gN(I(case["name"])), g_version(case["version"], I), g_names(case["reqs"], I), glist(cmds),
@@ -1061,14 +1180,14 @@ class C10(fw.Prop):
                 I(h["name"])
             hdrs = glist(gpair(gpair(gN(I(h["name"])), g_version(h["version"], I)), g_names(h["reqs"], I)) for h in case["exts"])
             return gapp("CShared", hdrs, glist(self._g_cmd(c, I) for c in case["objs"]),
-                        glist(gpair(gnat(i), gnat(j)) for i, j in case["prog"]),
+                        glist(gpair(gnat(i), gnat(j)) for i, j in obs.get("prog", case["prog"])),
                         glist(gpair(gpair(g_ores(o["before"], I), g_ores(o["after"], I)), g_owners(o["own"], I)) for o in obs["exts"]))
         if case["kind"] == "world":
             for h in case["exts"]:
                 I(h["name"])
             hdrs = glist(gpair(gpair(gN(I(h["name"])), g_version(h["version"], I)), g_names(h["reqs"], I)) for h in case["exts"])
             return gapp("CWorld", hdrs, glist(self._g_cmd(c, I) for c in case["objs"]),
-                        glist(gpair(gnat(i), gnat(j)) for i, j in case["prog"]),
+                        glist(gpair(gnat(i), gnat(j)) for i, j in obs.get("prog", case["prog"])),
                         glist(gpair(gpair(g_ores(o["before"], I), g_ores(o["after"], I)), g_held(o["held"], I)) for o in obs["exts"]))
         return gapp("CDoc", gbool(case["must_load"]), g_sext(case["doc"], I, False),
                     g_ores(obs["r1"], I), g_ores(obs["r2"], I), g_owners(obs["own1"], I))
@@ -1213,6 +1332,9 @@ class C10(fw.Prop):
         d["world"] = 0
         d["world_op_object_in_two_same_named_extension_objects"] = 0
         d["world_equal_headers"] = 0
+        d["doc_in_domain"] = 0                 # serialisation of an extension (C10Run.doc_wf): judged strictly
+        d["doc_outside_domain"] = {"loaded": 0, "refused": 0}     # any refusal accepted; a loaded result must be a fixed point
+        d["readds_refused_by_the_implementation"] = 0
         for c, o in zip(cases, observations):
             if c["kind"] == "world":
                 d["world"] += 1
@@ -1223,6 +1345,7 @@ class C10(fw.Prop):
                 d["shared_object_in_two_extensions"] += self.nontrivial(c, o)
             elif c["kind"] == "hist":
                 d["hist"] += 1
+                d["readds_refused_by_the_implementation"] += len(c["cmds"]) - len(o.get("kept", c["cmds"]))
                 n = len(c["cmds"])
                 d["cmds"][str(min(n, 10))] = d["cmds"].get(str(min(n, 10)), 0) + 1
                 seen = set()
@@ -1241,6 +1364,11 @@ class C10(fw.Prop):
                 d["versions_with_prerelease_or_build"] += bool(c["version"][3] or c["version"][4])
             else:
                 d["std" if c.get("std") else "doc"] += 1
+                if not c.get("std"):
+                    if o.get("in_domain"):
+                        d["doc_in_domain"] += 1
+                    else:
+                        d["doc_outside_domain"]["loaded" if o["r1"][0] == "ok" else "refused"] += 1
                 if o["r1"][0] != "ok":
                     d["doc_errors"][o["r1"][0]] = d["doc_errors"].get(o["r1"][0], 0) + 1
         return d
@@ -1248,6 +1376,8 @@ class C10(fw.Prop):
     # ---------------- regenerated-data checks with concrete failing inputs
     def extra(self, ctx, tier):
         out = []
+        ctx.stats.setdefault("model_drift", [])
+        ctx.stats.setdefault("model_drift_count", 0)
         spec, bund = std_files(SPEC_DIR), std_files(BUNDLED_DIR)
         for rel in sorted(set(spec) | set(bund)):
             if rel not in spec or rel not in bund:
